@@ -7,13 +7,13 @@ CLASS_LAYER = [PA + 'Pauli.__matmul__#Pauli', PA + 'Pauli.__neg__', PA + 'Pauli.
                PA + 'PauliList.rotate_by#nomask', PA + 'PauliList.transform_by#nomask', ST + 'CliffordMap.copy', ST + 'CliffordMap.compose',
                ST + 'CliffordMap.to_state#r', ST + 'CliffordMap.to_state#none', ST + 'StabilizerState.copy', ST + 'StabilizerState.to_map',
                ST + 'StabilizerState.expect#list', ST + 'identity_map', ST + 'StabilizerState.measure#list', ST + 'StabilizerState.postselect',
-               ST + 'StabilizerState.expect#state', 'pyclifford/circuit.py::MeasureLayer.forward', PA + 'PauliList.__neg__', PA + 'PauliList.rotate_by#state'] + \
+               ST + 'StabilizerState.expect#state', 'pyclifford/circuit.py::MeasureLayer.forward', PA + 'PauliList.__neg__', PA + 'PauliList.rotate_by#state', PA + 'PauliPolynomial.__matmul__#poly', PA + 'Pauli.__matmul__#Monomial'] + \
               [PA + '%s.__rmul__#%s' % (c, t) for c in ('Pauli', 'PauliList') for t in ('1', 'i', 'm1', 'mi')]
 
 # every kernel that currently has a discharged contract (their frame.* obligations are the C17 frame conditions)
 MEASURE_LEMMAS = ['acq_diff2', 'onsite_flat', 'acq_bilinear', 'acq_antisym', 'ipow_parity', 'ordg_bits', 'acq_zero', 'ordg_acq', 'selacq_gram', 'acqsum_ext',
                   'ipowsum_ext', 'symplectic_complete']
-KERNELS = [U + f for f in ('random_pair', 'pauli_diagonalize1', 'stabilizer_measure', 'stabilizer_project', 'stabilizer_postselection', 'stabilizer_projection_trace', 'acq', 'ipow', 'p0', 'ps0', 'acq_mat', 'pauli_tokenize', 'pauli_combine', 'pauli_transform',
+KERNELS = [U + f for f in ('batch_dot', 'random_pair', 'pauli_diagonalize1', 'stabilizer_measure', 'stabilizer_project', 'stabilizer_postselection', 'stabilizer_projection_trace', 'acq', 'ipow', 'p0', 'ps0', 'acq_mat', 'pauli_tokenize', 'pauli_combine', 'pauli_transform',
                            'clifford_rotate', 'clifford_rotate_signless', 'map_to_state', 'state_to_map', 'front',
                            'pauli_is_onsite', 'stabilizer_expect')]
 
@@ -28,7 +28,9 @@ def q(run, quick, thorough):
 
 
 def C01(run):
-    run.deductive(keys=[U + 'acq', U + 'ipow', U + 'p0', U + 'ps0', U + 'acq_mat', PA + 'Pauli.__matmul__#Pauli', PA + 'Pauli.__neg__'], lemmas=['acq_is_anticount'])
+    run.deductive(keys=[U + 'acq', U + 'ipow', U + 'p0', U + 'ps0', U + 'acq_mat', U + 'batch_dot', PA + 'Pauli.__matmul__#Pauli', PA + 'Pauli.__neg__',
+                        PA + 'PauliPolynomial.__matmul__#poly', PA + 'Pauli.__matmul__#Monomial'],
+                  lemmas=['acq_is_anticount'])
     run.bounded_check('c01_products', _b().c01_products, Nmax=q(run, 2, 3))
     return 'proof', ('deductive (all N): acq/ipow/p0/ps0/acq_mat equal the oracle spec functions built from the 2x2 matrices '
                      '(AntiCount parity, IpowSum mod 4); bounded: Pauli.__matmul__, chains, polynomial products against dense matrices')
@@ -128,6 +130,7 @@ def C14(run):
 
 
 def C15(run):
+    run.deductive(keys=[U + 'batch_dot', U + 'ipow', PA + 'PauliPolynomial.__matmul__#poly', PA + 'Pauli.__matmul__#Monomial'], lemmas=[])
     run.bounded_check('c15_algebra', _b().c15_algebra, Nmax=q(run, 2, 3), trees=q(run, 200, 1500))
     return 'other', 'bounded: random expression trees over all operand kinds against dense matrices, reduce, trace, to_qutip exports, linearity'
 
@@ -141,6 +144,8 @@ def C16(run):
 
 def C17(run):
     run.deductive(keys=KERNELS + CLASS_LAYER, lemmas=['acq_is_anticount'] + MEASURE_LEMMAS)
+    if run.tier == 'thorough':
+        run.generator_selftest()
     run.bounded_check('c17_copies', _b().c17_copies, Nmax=3, rounds=q(run, 20, 120))
     return 'other', ('deductive (all N): the frame condition (modifies clause) of every kernel under contract: arguments not listed are '
                      'unchanged, results are fresh or exactly the in-place arguments; bounded: copy of every object kind, query methods with '
